@@ -12,10 +12,18 @@ def check(run):
     verify.verify(run, c.E, c.contracts["prop:common.Header.version_tuple"])
     for k in ("de:common.Header", "de:treeinfo.Header"):
         verify.verify(run, c.E, c.contracts[k])
-    # the reader contracts below use `X.validate() returns iff valid_X` at their call sites; the two validators every load goes
-    # through (header, and the image record of the largest payload) are re-proved here, the rest in C06
-    for k in ("valid:common.Header", "valid:treeinfo.Header", "valid:images.Image"):
-        verify.verify(run, c.E, c.contracts[k])
+    # the reader contracts below use `X.validate() returns iff valid_X` at their call sites
+    # (a weakened validator breaks C07 as much as C06: a corrupted document then loads), so every validator contract is part of
+    # this check too
+    for k in sorted(c.contracts):
+        if k.startswith("valid:"):
+            saved = None
+            con = c.contracts[k]
+            if hasattr(con, "key_cls"):
+                saved = c.E.summaries.pop((con.key_cls, "validate"), None)
+            verify.verify(run, c.E, con, crosscheck=False)
+            if saved:
+                c.E.summaries[(con.key_cls, "validate")] = saved
     # de.valid.X / de.required.X : a reader returns normally only with the required keys and a valid object
     for k in sorted(c.contracts):
         if k.startswith("de:") and "Header" not in k:
